@@ -1,8 +1,8 @@
 """C19 - unordered patching is total: saturating counts, never a panic."""
 import collections, random
-import core, sx
+import core, sx, shapes
 from core import hbump
-from props import unord
+from props import unord, dcommon
 
 LEVEL = 'proof'
 FEATURES = ()
@@ -10,7 +10,7 @@ PROP = 'C19'
 ASSUMPTIONS = [
     'HashMap modelled as an association list with distinct keys (any order)',
     'usize overflow of `*val += count` is outside the model (counts in Nat)',
-    'the recursive map-like part is exercised through derived structs in C13/C01',
+    'the recursive map-like part is exercised through derived structs whose fields all use unordered strategies, applied to unrelated bases (stage 3); its per-key closed form for ANY base is C13.apply_total_keys / RMap.apply_modify_kget',
 ]
 
 
@@ -41,6 +41,74 @@ def triples(tier, seed):
             b = [[k, rnd.randrange(3)] for k in dict.fromkeys(keys)]
         out.append(sx.show(['umap-apply3', mode, p, c, b]))
     return out
+
+
+def unordered_shapes():
+    """derived structs all of whose fields use an unordered strategy (so applying a diff to an UNRELATED base must be total)"""
+    F, struct = shapes.F, shapes.struct
+    inner = lambda: struct([F('plain'), F('unord', cont='Vec'), F('plain', skip=1)])
+    shs = [
+        struct([F('recmap', mode='kv', inner=inner(), cont='HashMap'), F('map', mode='kv', cont='HashMap')]),
+        struct([F('recmap', mode='ko', inner=inner(), cont='BTreeMap'), F('unord', cont='Vec')]),
+        struct([F('recmap', mode='kv', cont='HashMap',
+                  inner=struct([F('recmap', mode='kv', inner=shapes.LEAF(), cont='BTreeMap'), F('plain')]))]),
+        struct([F('unord', cont='LinkedList'), F('map', mode='ko', cont='BTreeMap'), F('plain', skip=1)]),
+    ]
+    return shapes.name_shapes(shs)
+
+
+def keys_of(sh, v, path=()):
+    """{path: set of keys} for every map-like field (recursively through recursive maps)"""
+    out = {}
+    for j, (f, x) in enumerate(zip(sh['fields'], v[1:])):
+        if f['k'] == 'map':
+            out[path + (j,)] = {int(kv[0]) for kv in x[1:]}
+        elif f['k'] == 'recmap':
+            out[path + (j,)] = {int(kv[0]) for kv in x[1:]}
+    return out
+
+
+def derive_stage(res, tier, seed):
+    shs = unordered_shapes()
+    shs, binp = dcommon.build(res, tier, seed, ('debug_diffs',), shapes_list=shs)
+    if binp is None:
+        res.corr['model_disagreements'].append({'what': 'unordered-only shapes do not build', 'log': res.extra.get('cargo_error', '')[-1500:]}); return
+    rnd = random.Random(seed + 5)
+    n = 60 if tier == 'quick' else 1500
+    reqs = []
+    for i, sh in enumerate(shs):
+        for _ in range(n):
+            a = shapes.gen_value(sh, rnd)
+            b = shapes.mutate_value(sh, a, rnd, 0.6) if rnd.random() < 0.6 else shapes.gen_value(sh, rnd)
+            r = rnd.random()
+            base = shapes.gen_value(sh, rnd) if r < 0.6 else (shapes.mutate_value(sh, a, rnd, 0.7) if r < 0.9 else b)
+            reqs.append((i, 'pair', [a, b, base], 'unrelated-base'))
+    ol, dl = dcommon.to_lines(shs, reqs)
+    rc, rows = core.run_oracle(binp, ol)
+    rc, mo = core.run_driver(dl)
+    for (i, op, args, cls), row, m in zip(reqs, rows, mo):
+        sh = shs[i]
+        res.corr['evaluations'] += 1
+        hbump(res, 'kind:derive-unrelated-base')
+        r = sx.parse(row[1]); mm = sx.parse(m)
+        if r[0] != 'ok':
+            res.corr['impl_failures'].append({'request': row[0][:3000], 'impl': row[1][:300], 'what': 'computing the diff panicked'}); continue
+        fr = sx.field(r, 'follow')[0]; fm = sx.field(mm, 'follow')[0] if mm[0] == 'ok' else 'bad'
+        if fr == 'panic':
+            res.corr['impl_failures'].append({'request': row[0][:3000], 'impl': row[1][:400],
+                                              'what': 'applying the diff of (a, b) to an unrelated base panicked (all fields use unordered strategies)'}); continue
+        if fm in ('panic', 'bad') or shapes.canon_value(sh, fr) != shapes.canon_value(sh, fm):
+            res.corr['model_disagreements'].append({'request': row[0][:2000], 'impl': row[1][:400], 'model': m[:400], 'what': 'result on an unrelated base differs from the model'})
+        a, b, base = args
+        kb, kbase, kr = keys_of(sh, b), keys_of(sh, base), keys_of(sh, fr)
+        ka = keys_of(sh, a)
+        for pth, ks in kr.items():
+            extra = ks - (kbase[pth] | kb[pth] | ka[pth])
+            if extra:
+                res.corr['impl_failures'].append({'request': row[0][:3000], 'impl': row[1][:400],
+                                                  'what': f'map field f{pth[-1]}: the result holds keys {sorted(extra)} that were neither in the base nor in the diff'}); break
+        if sx.show(base) != sx.show(a):
+            res.distinct.add(core.digest(row[0]))
 
 
 def evaluate(res, rows, label=''):
@@ -135,6 +203,10 @@ def run(res, ctx):
         sub = reqs if res.tier == 'thorough' else reqs[::3]
         rc, rows2 = core.run_oracle(bind, sub)
         evaluate(res, [r[:2] for r in rows2], label=' [debug_asserts, dev profile]')
+
+    # stage 3: recursive / flat maps and arrays inside derived structs, diffs applied to unrelated bases
+    if not ctx.get('replay_requests'):
+        derive_stage(res, res.tier, res.seed)
 
     def search():
         rc, rows3 = core.run_oracle(binp, triples('thorough', res.seed + 1))
